@@ -182,7 +182,8 @@ def _compute_integral_ir(
         entity_type,
         initial_terminals.values(),
         existing_tables,
-        use_sum_factorization=p["sum_factorization"],
+        # Sum factorisation applies to cell integrals only
+        use_sum_factorization=p["sum_factorization"] and integral_type == "cell",
         is_mixed_dim=is_mixed_dim,
         rtol=p["table_rtol"],
         atol=p["table_atol"],
